@@ -80,6 +80,29 @@ theorem cardinality_eq_wf {F : Formula} (hF : F.WF) (s : FState) (hs : s.numvar 
     ((PyF.cardinality_eq s c v true) >>= fun x => Except.ok x) = Except.ok (push s (.lin c .eq v)) := by
   rw [cardinality_eq_checked s c v (lits_ok_of_wf hF hc s hs)]; rfl
 
+/-! ### lists of literals with entries computed by `group(…)` -/
+
+theorem lits_inl (l : List Int) : PyF.lits (l.map Sum.inl) = Except.ok l := by
+  induction l with
+  | nil => rfl
+  | cons a l ih =>
+    simp only [PyF.lits, List.map_cons, List.mapM_cons] at ih ⊢
+    rw [ih]; rfl
+
+theorem lits_inl' {α : Type} (l : List α) (f : α → Int) :
+    PyF.lits (l.map (fun a => (Sum.inl (f a) : Sum Int (List Int)))) = Except.ok (l.map f) := by
+  have := lits_inl (l.map f)
+  simpa [List.map_map, Function.comp_def] using this
+
+theorem lits_two (a b : Int) : PyF.lits [Sum.inl a, Sum.inl b] = Except.ok [a, b] := lits_inl [a, b]
+
+theorem lits_three (a b c : Int) : PyF.lits [Sum.inl a, Sum.inl b, Sum.inl c] = Except.ok [a, b, c] := lits_inl [a, b, c]
+
+theorem lits_append_inl (l : List Int) (a : Int) :
+    PyF.lits (l.map (fun z => (Sum.inl z : Sum Int (List Int))) ++ [Sum.inl a]) = Except.ok (l ++ [a]) := by
+  have := lits_inl (l ++ [a])
+  simpa [List.map_append] using this
+
 /-! ### complete mappings at any offset -/
 
 theorem bipId_complete_start (s m n u v : Nat) (hu : 1 ≤ u ∧ u ≤ m) (hv : 1 ≤ v ∧ v ≤ n) :
